@@ -32,6 +32,13 @@ Detect(env, n, table, visited, mesh) ==
          [] n.t = "obj" -> \E i \in DOMAIN n.props : ~PropOptional(n.props[i]) /\ Detect(env, n.props[i].n, table, visited, mesh)
          [] OTHER -> FALSE                                   \* arrays, literals
 TypeNamesOf(env) == {env.types[i].name : i \in DOMAIN env.types}
+\* the allOf compiler (compiler_all_of.go processType) keeps its own set of types being expanded: a type that inherits from itself,
+\* directly or through others, is refused (703); a type inherited from twice, or along two paths, is not a cycle
+AllOfParents(n) == IF ~HasRule(n, "allOf") THEN {}
+                   ELSE LET rv == RuleV(n, "allOf") IN IF rv.t = "tref" THEN {rv.s} ELSE {rv.items[i].s : i \in DOMAIN rv.items}
+RECURSIVE AllOfUp(_, _)
+AllOfUp(env, S) == LET T == S \cup UNION {IF HasType(env, t) THEN AllOfParents(TypeNode(env, t)) ELSE {} : t \in S} IN IF T = S THEN S ELSE AllOfUp(env, T)
+AllOfCycle(env) == \E t \in TypeNamesOf(env) : t \in AllOfUp(env, AllOfParents(TypeNode(env, t)))
 ImplRejectsRecursion(env, root, mesh) == Detect(env, root, TypeNamesOf(env), {"root"}, mesh)
 
 (* The link check of check_schema.go (collectAllowedJsonTypes): for a node that carries a type rule or an or rule  *)
